@@ -108,6 +108,10 @@ impl Handler<M2> for SvcB {
 #[datacake_rpc::async_trait]
 impl Handler<M2> for SvcC {
     type Reply = u64;
+    /// a message path of its own instead of the type name
+    fn path() -> &'static str {
+        "custom-path/m2"
+    }
     async fn on_message(&self, msg: Request<M2>) -> Result<u64, Status> {
         Ok(msg.y.value() as u64 + 3_000)
     }
@@ -170,7 +174,7 @@ impl Check for C13 {
         "E2: one server host (real datacake-rpc Server over simulated TCP/HTTP2) and one client host (real RpcClient); services A{M1}, B{M1,M2}, C{M2} are added and removed on the running server"
     }
     fn rule(&self) -> &'static str {
-        "Cases: every add/remove history over the alphabet {add A, add B, add C, remove A, remove B, remove C, add D1, add D2, remove \"shared-name\"} (D1 and D2 are two service types registered under one name with different messages) over that 9-step alphabet up to length 4 (7 381 histories, quick) or 5 (66 430, thorough), enumerated completely, plus seeded histories of length 6-14. After every step the client sends all six (service, message) pairs - A/M1, B/M1, B/M2, C/M2, shared-name/M1, shared-name/M2 - sequentially or concurrently. Oracle: a pair is answered by its own handler (reply identifies the service) iff its service was added and not removed since, otherwise refused with ServiceUnavailable; removing one service never changes the answer of another. Non-trivial = the history contains a removal while another service is registered. Distinct = the history itself."
+        "Cases: every add/remove history over the alphabet {add A, add B, add C, remove A, remove B, remove C, add D1, add D2, remove \"shared-name\"} (D1 and D2 are two service types registered under one name with different messages) over that 9-step alphabet up to length 4 (7 381 histories, quick) or 5 (66 430, thorough), enumerated completely, plus seeded histories of length 6-14. After every step the client sends all six (service, message) pairs - A/M1, B/M1, B/M2, C/M2 (whose handler overrides the message path; sent by value with send_owned on odd steps), shared-name/M1, shared-name/M2 - sequentially or concurrently. Oracle: a pair is answered by its own handler (reply identifies the service) iff its service was added and not removed since, otherwise refused with ServiceUnavailable; removing one service never changes the answer of another. Non-trivial = the history contains a removal while another service is registered. Distinct = the history itself."
     }
     fn assumptions(&self) -> Vec<String> {
         vec!["registry changes and probes are sequenced (a probe is sent after the step completed); in-flight probes during a change are sent too but only required not to panic or hang".into()]
@@ -294,8 +298,19 @@ impl Check for C13 {
                 let m1 = M1 { x: i as u64 };
                 let m2 = M2 { y: i as u32, s: "probe".into() };
                 let conv = |r: Result<datacake_rpc::DataView<u64>, Status>| -> Result<u64, (ErrorCode, String)> { r.map(|v| v.value()).map_err(|e| (e.code, e.message)) };
+                // C/M2 (custom message path) goes out by value on odd steps (send_owned, the call
+                // streaming bodies have to use), by reference on even ones
+                let owned = i % 2 == 1;
+                let m2c = M2 { y: i as u32, s: "probe".into() };
                 let results: Vec<(&str, u8, u64, Result<u64, (ErrorCode, String)>)> = if concurrent {
-                    let (a, b, c, d, e, f) = tokio::join!(ca.send(&m1), cb.send(&m1), cb.send(&m2), cc.send(&m2), cd1.send(&m1), cd2.send(&m2));
+                    let c_m2 = async {
+                        if owned {
+                            cc.send_owned(m2c).await
+                        } else {
+                            cc.send(&m2).await
+                        }
+                    };
+                    let (a, b, c, d, e, f) = tokio::join!(ca.send(&m1), cb.send(&m1), cb.send(&m2), c_m2, cd1.send(&m1), cd2.send(&m2));
                     vec![
                         ("A/M1", 0, i as u64 + 1_000, conv(a)),
                         ("B/M1", 1, i as u64 + 2_000, conv(b)),
@@ -309,7 +324,7 @@ impl Check for C13 {
                         ("A/M1", 0, i as u64 + 1_000, conv(ca.send(&m1).await)),
                         ("B/M1", 1, i as u64 + 2_000, conv(cb.send(&m1).await)),
                         ("B/M2", 2, i as u64 + 2_500, conv(cb.send(&m2).await)),
-                        ("C/M2", 3, i as u64 + 3_000, conv(cc.send(&m2).await)),
+                        ("C/M2", 3, i as u64 + 3_000, conv(if owned { cc.send_owned(m2c).await } else { cc.send(&m2).await })),
                         ("shared-name/M1", 4, i as u64 + 4_000, conv(cd1.send(&m1).await)),
                         ("shared-name/M2", 5, i as u64 + 4_500, conv(cd2.send(&m2).await)),
                     ]
